@@ -599,7 +599,7 @@ def decide(prop, tier, seed):
             continue
         a = r["acc"]
         evaluations += a["steps"]
-        if st["kind"] not in ("hammer", "compile"):
+        if st["kind"] not in ("hammer", "compile", "static"):
             validated += a["steps"]
         nontrivial += len(a["nontrivial"])
         samples += a["samples"]
@@ -827,7 +827,12 @@ def run_compile_stream(prop, stream, tier, seed, workdir, scale=1):
     return compile_stream.run_compile_stream(prop, stream, tier, seed, workdir, scale)
 
 
-STREAM_RUNNERS = {"compile": run_compile_stream, "core": run_core_stream, "macro": run_macro_stream, "lines": run_lines_stream, "sched": run_sched_stream,
+def run_static_stream(prop, stream, tier, seed, workdir, scale=1):
+    import static_sites
+    return static_sites.run_static_stream(prop, stream, tier, seed, workdir, scale)
+
+
+STREAM_RUNNERS = {"static": run_static_stream, "compile": run_compile_stream, "core": run_core_stream, "macro": run_macro_stream, "lines": run_lines_stream, "sched": run_sched_stream,
                   "hammer": run_hammer_stream}
 
 
